@@ -280,8 +280,19 @@ func c04request(a []*Sx) *Sx {
 		f.ServeHTTP(&wireWriter{hdr: http.Header{}}, req)
 		results = append(results, T("r", seen...))
 	}
+	// a handler may also re-map the Context itself: later handlers get the re-mapped value, whether they are
+	// invoked through the built-in func(Context) fast path or reflectively
+	fastSaw, reflSaw := false, false
+	f.Get("/remap",
+		func(c flamego.Context) { c.MapTo(&c04wrapCtx{Context: c}, (*flamego.Context)(nil)) },
+		func(c flamego.Context) { _, fastSaw = c.(*c04wrapCtx) },
+		func(c flamego.Context, _ *http.Request) { _, reflSaw = c.(*c04wrapCtx) })
+	f.ServeHTTP(&wireWriter{hdr: http.Header{}}, &http.Request{Method: "GET", URL: &url.URL{Path: "/remap"}, Header: http.Header{}, Proto: "HTTP/1.1"})
+	results = append(results, T("remap", B(fastSaw), B(reflSaw)))
 	return T("reqres", results...)
 }
+
+type c04wrapCtx struct{ flamego.Context }
 
 func genC04(rng *rand.Rand, n int, tier string, emit func(*Sx)) {
 	// the implements table of the universe, computed by reflect, travels with every case
